@@ -92,6 +92,11 @@ def run(v):
                     "c09_mc_fob", workers=4, timeout=900, coverage=False)
     if rb.violated != "LastWordUnlessOverlapped":
         raise common.ToolError("MC_LspServer: the first-of-batch deviation is not refuted (vacuous invariant)")
+    # a named deviation: a notification without settings (`settings: null`) leaves the old settings in force
+    rn = common.tlc(os.path.join(SPEC, "mc", "MC_LspServer.tla"), os.path.join(SPEC, "mc", "MC_LspServer_dev_nullsettings.cfg"),
+                    "c09_mc_null", workers=4, timeout=900, coverage=False)
+    if rn.violated != "LastWordUnlessOverlapped":
+        raise common.ToolError("MC_LspServer: the null-settings deviation is not refuted (vacuous invariant)")
     # the user dictionary as server state (UserDict.tla): model, named deviation refuted, real sessions validated
     mcu = os.path.join(SPEC, "mc", "MC_UserDict.tla")
     ru = common.tlc(mcu, os.path.join(SPEC, "mc", "MC_UserDict_dev_onlynamed.cfg"), "c09_ud_dev", workers=2, timeout=600, coverage=False)
